@@ -534,6 +534,16 @@ impl Message {
         out
     }
 
+    #[cfg(feature = "dkim")]
+    /// Headers of the MIME part, which are written into the header section of the message too
+    pub(crate) fn part_headers(&self) -> Option<&Headers> {
+        match &self.body {
+            MessageBody::Mime(Part::Single(part)) => Some(part.headers()),
+            MessageBody::Mime(Part::Multi(part)) => Some(part.headers()),
+            MessageBody::Raw(_) => None,
+        }
+    }
+
     /// Sign the message using Dkim
     ///
     /// Example:
